@@ -37,6 +37,9 @@ NEEDED = ["theories/Base/Str.v", "theories/Kernels/ObjAccess.v",
 
 SENT = "S3CR3Tq"
 SENT2 = "Z9HIDDENw"
+REPR_SENT = "R3PRs3c"      # only in what __repr__ returns
+DUNDER_SENT = "DUNDs3c"    # only in what __format__(spec != "") / __reduce__ / __getstate__ / __bytes__ / __dir__ return
+REPR_SIG = "repr-of-object-inside-dict-rendered"
 
 # ----------------------------------------------------------------------------
 # logs
@@ -48,8 +51,10 @@ class Logs:
         self.calls: list[str] = []                   # non-protocol methods / callables called
         self.getitem: list[tuple[int, Any]] = []     # (object id in spec, key)
         self.filter_args: list[tuple[str, Any]] = []
+        self.reprs: list[tuple[str, int]] = []       # who called __repr__ of a context object
 
     def clear(self) -> None:
+        self.reprs.clear()
         self.attr.clear()
         self.calls.clear()
         self.getitem.clear()
@@ -188,7 +193,29 @@ def _instance_class(kind: str, is_async: bool, has_liq: bool, has_html: bool, ha
         ns["__html__"] = lambda self: _oget(self, "_c05")["html"]
     if has_int:
         ns["__int__"] = lambda self: _oget(self, "_c05")["int"]
+    if any(name == "__repr__" for name, _ in members):
+        def __repr__(self):  # type: ignore[no-untyped-def]
+            f = sys._getframe(1)
+            LOG.reprs.append((f.f_code.co_filename, f.f_lineno))
+            return _oget(self, "_c05")["calls"]["__repr__"]
+
+        def __format__(self, spec):  # type: ignore[no-untyped-def]
+            if not spec:
+                return str(self)          # format(obj, "") is string conversion
+            LOG.calls.append("dunder:__format__")
+            return DUNDER_SENT
+
+        def _dunder(name):  # type: ignore[no-untyped-def]
+            def f(self, *a, **k):  # type: ignore[no-untyped-def]
+                LOG.calls.append("dunder:" + name)
+                return (DUNDER_SENT,) if name != "__bytes__" else DUNDER_SENT.encode()
+            return f
+        ns.update(__repr__=__repr__, __format__=__format__)
+        for dn in ("__reduce__", "__reduce_ex__", "__getstate__", "__bytes__", "__dir__", "__copy__", "__deepcopy__"):
+            ns[dn] = _dunder(dn)
     for name, tag in members:
+        if name == "__repr__":
+            continue
         if tag == "prop":
             def getter(self, _n=name):  # type: ignore[no-untyped-def]
                 LOG.calls.append("property:" + _n)
@@ -601,7 +628,8 @@ class Gen:
         ks = self.r.sample(ITEM_KEYS, self.r.randint(lo, 4))
         return [(k, self.value(depth)) for k in ks]
 
-    def attrs(self, depth: int, exposed: list[str], kind: str = "plain") -> list[tuple[str, tuple]]:
+    def attrs(self, depth: int, exposed: list[str], kind: str = "plain",
+              allow_repr: bool = True) -> list[tuple[str, tuple]]:
         r = self.r
         out: list[tuple[str, tuple]] = [("secret", ("val", ("str", SENT)))]
         if r.random() < 0.45:
@@ -626,6 +654,8 @@ class Gen:
                 out.append((name, ("val", self.obj(depth - 1))))
             else:
                 out.append((name, ("val", ("str", SENT + name))))
+        if allow_repr and r.random() < 0.4:
+            out.append(("__repr__", ("call", "Obj(secret='%s')" % REPR_SENT)))
         if exposed and r.random() < 0.3:
             k = r.choice(exposed)
             if all(n != k for n, _ in out):
@@ -660,7 +690,7 @@ class Gen:
         hg = self.r.random() < 0.5
         return ("obj", {"id": self.nid, "kind": "plain", "shape": "class", "hg": hg, "async": False,
                         "liq": None, "items": [], "aitems": [], "seq": [],
-                        "str": "<class 'K%d'>" % self.nid, "attrs": self.attrs(0, [])})
+                        "str": "<class 'K%d'>" % self.nid, "attrs": self.attrs(0, [], allow_repr=False)})
 
     def module_obj(self) -> tuple:
         self.nid += 1
@@ -1019,11 +1049,13 @@ def twin(spec: tuple, r: Any) -> tuple:
     o["aitems"] = [(k, twin(v, r)) for k, v in o.get("aitems", [])]
     o["seq"] = [twin(v, r) for v in o.get("seq", [])]
     mode = r.random()
-    attrs: list[tuple[str, tuple]] = []
+    attrs: list[tuple[str, tuple]] = [(n, a) for n, a in o["attrs"] if n == "__repr__"]
     if mode < 0.3:
-        attrs = [("other", ("val", ("str", SENT2)))]
+        attrs.append(("other", ("val", ("str", SENT2))))
     else:
         for n, a in o["attrs"]:
+            if n == "__repr__":
+                continue
             if a[0] in ("val", "prop"):
                 attrs.append((n, (a[0], _swap(twin(a[1], r)))))
             elif a[0] == "call":
@@ -1075,15 +1107,21 @@ class Rec:
 _ENVS: dict[tuple, Any] = {}
 
 
-def make_env(shopify: bool = False, auto_escape: bool = False) -> Any:
-    key = (shopify, auto_escape)
+UNDEFS = ("default", "debug", "strict", "falsy")
+
+
+def make_env(shopify: bool = False, auto_escape: bool = False, undef: str = "default") -> Any:
+    key = (shopify, auto_escape, undef)
     if key not in _ENVS:
         from liquid2 import DictLoader
+        from liquid2 import undefined as U
+        ucls = {"default": U.Undefined, "debug": U.DebugUndefined, "strict": U.StrictUndefined,
+                "falsy": U.FalsyStrictUndefined}[undef]
         if shopify:
             from liquid2.shopify import Environment
         else:
             from liquid2 import Environment
-        env = Environment(loader=DictLoader(PARTIALS), auto_escape=auto_escape)
+        env = Environment(loader=DictLoader(PARTIALS), auto_escape=auto_escape, undefined=ucls)
         for name, f in list(env.filters.items()):
             env.filters[name] = Rec(f, name)
         _ENVS[key] = env
@@ -1094,10 +1132,10 @@ _LOOP: Any = None
 
 
 def run_impl(src: str, data: list[tuple[str, tuple]], *, async_: bool = False,
-             shopify: bool = False, auto_escape: bool = False) -> tuple:
+             shopify: bool = False, auto_escape: bool = False, undef: str = "default") -> tuple:
     """('ok', text) | ('err', class name, message).  Logs are left in LOG."""
     global _LOOP
-    env = make_env(shopify, auto_escape)
+    env = make_env(shopify, auto_escape, undef)
     memo: dict[int, Any] = {}
     pydata = {k: build(v, memo) for k, v in data}
     LOG.clear()
@@ -1177,7 +1215,7 @@ def _scan(x: Any, depth: int = 0) -> bool:
     """Does a value handed to a filter contain a sentinel (without looking
     at Python attributes)?"""
     if isinstance(x, str):
-        return SENT in x or SENT2 in x
+        return SENT in x or SENT2 in x or DUNDER_SENT in x
     if depth > 6:
         return False
     if isinstance(x, (list, tuple)):
@@ -1185,6 +1223,30 @@ def _scan(x: Any, depth: int = 0) -> bool:
     if isinstance(x, dict):
         return any(_scan(k, depth + 1) or _scan(v, depth + 1) for k, v in x.items())
     return False
+
+
+def _scan_repr(x: Any, depth: int = 0) -> bool:
+    if isinstance(x, str):
+        return REPR_SENT in x
+    if depth > 6:
+        return False
+    if isinstance(x, (list, tuple)):
+        return any(_scan_repr(y, depth + 1) for y in x)
+    if isinstance(x, dict):
+        return any(_scan_repr(k, depth + 1) or _scan_repr(v, depth + 1) for k, v in x.items())
+    return False
+
+
+def explicit_repr_calls(repo_liquid2: str) -> list[str]:
+    """__repr__ of a context object called by an explicit repr in the engine
+    source (`!r`, `repr(`, `%r`) or from outside the engine.  What remains is the
+    implicit call CPython makes for str(dict) / str(list) (known finding)."""
+    out = []
+    for filename, lineno in LOG.reprs:
+        line = linecache.getline(filename, lineno)
+        if not filename.startswith(repo_liquid2) or "!r" in line or "repr(" in line or "%r" in line:
+            out.append(f"{filename}:{lineno}: {line.strip()[:90]}")
+    return out
 
 
 def check_logs(repo_liquid2: str) -> list[tuple[str, str]]:
@@ -1221,9 +1283,17 @@ def check_logs(repo_liquid2: str) -> list[tuple[str, str]]:
             bad.append(("attribute-read-by-library", f"attribute {name!r} read at {filename}:{lineno}"))
     for c in LOG.calls:
         bad.append(("method-called", f"{c} of a context object was called"))
+    explicit = explicit_repr_calls(repo_liquid2)
+    for e in explicit:
+        bad.append(("repr-called-by-engine", f"repr() of a context object taken at {e}"))
+    if LOG.reprs and not explicit:
+        bad.append((REPR_SIG, "str() of a dict / list called __repr__ of an object inside it"))
     for fname, args in LOG.filter_args:
         if _scan(args):
             bad.append(("secret-handed-to-filter", f"filter {fname!r} received an attribute value"))
+        elif _scan_repr(args):
+            bad.append((REPR_SIG if not explicit else "secret-handed-to-filter",
+                        f"filter {fname!r} received the repr() of a context object"))
     return bad
 
 
@@ -1237,7 +1307,12 @@ def internal_leak(o: tuple) -> bool:
 
 
 def leaks(o: tuple) -> bool:
-    return any(SENT in str(x) or SENT2 in str(x) for x in o[1:])
+    """An attribute value in the output or in the error message."""
+    return any(SENT in str(x) or SENT2 in str(x) or DUNDER_SENT in str(x) for x in o[1:])
+
+
+def repr_leaks(o: tuple) -> bool:
+    return any(REPR_SENT in str(x) for x in o[1:])
 
 
 # ----------------------------------------------------------------------------
@@ -1546,6 +1621,38 @@ def duck_programs(thorough: bool = False) -> list[tuple[list, list[tuple[str, tu
     return [(p, data) for p in progs]
 
 
+def key_data(g: Gen) -> list[tuple[str, tuple]]:
+    """Objects (each with a __repr__ that shows what its __str__ hides) to be used as bracket keys."""
+    rp = ("__repr__", ("call", "Obj(secret='%s')" % REPR_SENT))
+    sec = ("secret", ("val", ("str", SENT)))
+    base = {"shape": "inst", "async": False, "liq": None, "items": [], "aitems": [], "seq": []}
+    o = ("obj", dict(base, id=1, kind="plain", hg=False, str="P#1", attrs=[sec, rp]))
+    m = ("obj", dict(base, id=2, kind="mapping", hg=True, str="M#2", items=[("a", ("int", 1))], attrs=[sec, rp]))
+    q = ("obj", dict(base, id=3, kind="sequence", hg=True, str="Q#3", seq=[("int", 1)], attrs=[sec, rp]))
+    lq = ("obj", dict(base, id=4, kind="plain", hg=False, str="P#4", liq=("str", "nokey"), attrs=[sec, rp]))
+    return [("o", o), ("m", m), ("q", q), ("lq", lq),
+            ("a", ("dict", [("b", ("dict", [("n", ("int", 1))])), ("k", ("str", "v"))])),
+            ("l", ("list", [("int", 1), o])), ("t", ("tuple", [o, m]))]
+
+
+def key_templates() -> list[str]:
+    out = []
+    for k in ("o", "m", "q", "lq", "l", "t", "a", "o.secret", "l[1]", "t[0]"):
+        out += [
+            f"{{{{ a[{k}] }}}}|{{{{ l[{k}] }}}}|{{{{ m[{k}] }}}}|{{{{ q[{k}] }}}}|{{{{ o[{k}] }}}}",
+            f"{{{{ a[{k}].x | default: 'D' }}}}",
+            f"{{{{ a.b[{k}].c }}}}|{{{{ a[{k}][{k}] }}}}|{{{{ nosuch[{k}] }}}}|{{{{ l[{k}].first }}}}",
+            f"{{% if a[{k}] %}}T{{% else %}}E{{% endif %}}{{% for x in a[{k}] %}}{{{{ x }}}}{{% else %}}none{{% endfor %}}",
+            f"{{% assign z = a[{k}] %}}[{{{{ z }}}}][{{{{ z.y }}}}][{{{{ z | upcase }}}}][{{{{ z | size }}}}]",
+            f"{{{{ l | map: x => x[{k}] | join: ',' }}}}|{{{{ a[{k}] | append: 'x' }}}}|{{{{ 'x' | append: a[{k}] }}}}",
+            f"{{% echo a[{k}] %}}{{% capture c %}}{{{{ m[{k}] }}}}{{% endcapture %}}{{{{ c }}}}{{% cycle a[{k}], 1 %}}",
+            f"{{% case a[{k}] %}}{{% when 1 %}}A{{% else %}}B{{% endcase %}}{{% with w: a[{k}] %}}{{{{ w }}}}{{% endwith %}}",
+            f"{{% include 'p', x: a[{k}] %}}|{{% render 'p', x: m[{k}] %}}",
+            f"{{{{ a[{k}] == nil }}}}|{{{{ a[{k}] | json }}}}|{{{{ a[{k}] | date: '%Y' }}}}|{{{{ a[{k}] | plus: 1 }}}}",
+        ]
+    return out
+
+
 def duck_templates() -> list[tuple[str, bool]]:
     """The same objects through the tags and filters outside the evaluator fragment."""
     out: list[tuple[str, bool]] = []
@@ -1752,7 +1859,7 @@ WITNESS_TRANSLATIONS = [
 # ----------------------------------------------------------------------------
 # main
 
-KNOWN_SIGS = set(KNOWN_LITERALS.values())
+KNOWN_SIGS = set(KNOWN_LITERALS.values()) | {REPR_SIG}
 
 
 def main(chk: C.Check, build: C.Build) -> None:
@@ -1781,11 +1888,11 @@ def main(chk: C.Check, build: C.Build) -> None:
         return {a: oracle_one(src, data, async_=a, **kw) for a in (False, True)}
 
     def oracle_one(src: str, data: list[tuple[str, tuple]], *, async_: bool = False, shopify: bool = False,
-                   auto_escape: bool = False, names: set[str] | None = None,
+                   auto_escape: bool = False, undef: str = "default", names: set[str] | None = None,
                    differential: bool = True) -> tuple:
         """Render on the implementation and evaluate the direct oracles."""
         nonlocal evaluations
-        kw = dict(async_=async_, shopify=shopify, auto_escape=auto_escape)
+        kw = dict(async_=async_, shopify=shopify, auto_escape=auto_escape, undef=undef)
         out = run_impl(src, data, **kw)
         evaluations += 1
         dist["oracle_renders"] += 1
@@ -1798,6 +1905,12 @@ def main(chk: C.Check, build: C.Build) -> None:
             report("secret-in-output", f"an attribute value appears in the {'output' if out[0] == 'ok' else 'error message'}: {out[1:]!r:.200}", rp)
         if internal_leak(out):
             report("engine-internal-in-output", f"the output shows a Python-internal object: {out[1]!r:.200}", rp)
+        if repr_leaks(out):
+            # repr(obj) is not string conversion.  Reached through str(dict) it is the known
+            # finding; taken explicitly by the engine (hint texts, error messages) it is not.
+            report("secret-in-output" if explicit_repr_calls(pkg) or not LOG.reprs else REPR_SIG,
+                   f"what __repr__ of a context object returns appears in the "
+                   f"{'output' if out[0] == 'ok' else 'error message'}: {out[1:]!r:.200}", rp)
         for sig, what in check_logs(pkg):
             report(sig, what, rp)
         if names is not None and touched:
@@ -1813,6 +1926,10 @@ def main(chk: C.Check, build: C.Build) -> None:
             dist["oracle_renders"] += 1
             if leaks(out2):
                 report("secret-in-output", f"an attribute value appears in the output: {out2[1:]!r:.200}",
+                       dict(rp, data=d2, implementation=out2))
+            if repr_leaks(out2):
+                report("secret-in-output" if explicit_repr_calls(pkg) or not LOG.reprs else REPR_SIG,
+                       f"what __repr__ of a context object returns appears in the output: {out2[1:]!r:.200}",
                        dict(rp, data=d2, implementation=out2))
             for sig, what in check_logs(pkg):
                 report(sig, what, dict(rp, data=d2, implementation=out2))
@@ -1837,6 +1954,12 @@ def main(chk: C.Check, build: C.Build) -> None:
             chk.finding("translations-provider-rebindable-by-template",
                         f"{src} calls the Python method {meth} of the context object bound to the template variable `translations` and renders its result ({out[1]!r:.60})",
                         {"source": src, "data": data, "implementation": out, "calls": called})
+
+    ro = hook_obj(1, [("__repr__", ("call", "Obj(secret='%s')" % REPR_SENT))])
+    out = run_impl("{{ d }}", [("d", ("dict", [("k", ro)]))])
+    if repr_leaks(out) and not explicit_repr_calls(pkg):
+        chk.finding(REPR_SIG, f"{{{{ d }}}} for a dict holding an object prints repr(obj), not str(obj): {out[1]!r:.80}",
+                    {"source": "{{ d }}", "data": [("d", ("dict", [("k", ro)]))], "implementation": out})
 
     # -- 1. the getattr-by-name drops ------------------------------------------
     ka = kernel_a_items(thorough)
@@ -1887,6 +2010,12 @@ def main(chk: C.Check, build: C.Build) -> None:
                             "outcome_async": outs[True][:2]})
 
     # -- 3. every tag and every registered filter (implementation only) ---------
+    # object-valued bracket keys with failing lookups, under every Undefined policy: the hint
+    # (printed by DebugUndefined, raised by StrictUndefined) may only show str() conversions
+    kd = key_data(g)
+    for src in key_templates():
+        for undef in UNDEFS:
+            oracle_run(src, kd, undef=undef, names=set(re.findall(r"[A-Za-z_][A-Za-z0-9_]*", src)))
     dd = duck_data()
     for src, shop in duck_templates():
         for ae in (False, True):
@@ -1908,7 +2037,7 @@ def main(chk: C.Check, build: C.Build) -> None:
             tt += [(t, True) for t in (fts if thorough else r.sample(fts, 3))]
         for src, shop in tt:
             ae = r.random() < 0.3
-            outs = oracle_run(src, data, shopify=shop, auto_escape=ae,
+            outs = oracle_run(src, data, shopify=shop, auto_escape=ae, undef=r.choice(UNDEFS),
                               names=set(re.findall(r"[A-Za-z_][A-Za-z0-9_]*", src)))
             if i == 0 and len(samples) < 6:
                 samples.append({"source": src, "data": "(generated)", "outcome_sync": outs[False][:2],
